@@ -34,7 +34,15 @@ RULE = ("case = (matrix with 1..4 frames with unique names (some names prefixes/
         "real KCD file with several buses, read back from the KCD output), 1..4 operations given as --renameFrame/--deleteFrame/"
         "--renameSignal/--deleteSignal/--deleteZeroSignals/--deleteSignalAttributes/--deleteFrameAttributes/--deleteObsoleteDefines "
         "in the converter's order; the state after the k-th operation is the output for the first k options, and every matrix of "
-        "the file is one case. Non-trivial = distinct case in which at least one operation changed the matrix.")
+        "the file is one case. A fifth stream (attribute names that are words elsewhere) has matrices whose frame, signal and ECU "
+        "attributes and definition dictionaries are named like fields and methods of the Frame / Signal / Ecu / CanMatrix classes "
+        "(cycle_time, unit, comment, size, attributes, ...), like the attributes the file formats know (GenMsgCycleTime, VFrameFormat, ...), "
+        "like keywords of Python and of the DBC format, or like frames and signals of the matrix, 3..6 such names per matrix next to ordinary "
+        "ones; 1..4 operations, mostly del_frame_attributes / del_signal_attributes naming 1..3 present (or absent, or nearly spelled) names "
+        "and delete_obsolete_defines after them; one call in four is made as Frame.del_attribute / Signal.del_attribute on every frame / "
+        "signal; one case in ten goes through the converter; a sweep deletes every such word from frames and signals that carry it "
+        "(both ways) and removes the obsolete definitions. "
+        "Non-trivial = distinct case in which at least one operation changed the matrix.")
 PARTIAL = ["attribute values and definition bodies are opaque strings here; ENUM conversion belongs to C05"]
 ASSUMPTIONS = ["frame names unique in the matrix and signal names unique within a frame (the Spec is asserted only on such states)",
                "patterns and names are non-empty and carry at most one '*' at the beginning or the end"]
@@ -330,6 +338,82 @@ def sweep_collide():
                 yield {"op": "bulk", "c": {"m": m, "ops": [["renameFrame", old, new]]}}
 
 
+# ---- attribute names that are words elsewhere: an attribute is addressed by its name alone, whatever else carries that name ----
+# (user attributes live in their own dictionaries; a name spelled like a field of the class, like an attribute a file format knows,
+# like a keyword or like a frame of the matrix is a name like any other)
+ATTR_WORDS = [
+    # fields of Frame / Signal / Ecu / CanMatrix
+    "name", "size", "comment", "cycle_time", "is_fd", "is_j1939", "attributes", "signals", "transmitters", "receivers", "arbitration_id",
+    "pdu_name", "header_id", "mux_names", "unit", "min", "max", "factor", "offset", "start_bit", "is_signed", "is_float", "is_little_endian",
+    "values", "initial_value", "multiplex", "mux_value", "enumeration", "type_label", "comments", "frames", "ecus", "frame_defines",
+    "signal_defines", "ecu_defines", "global_defines", "type", "baudrate",
+    # methods and what every Python object has
+    "attribute", "add_attribute", "del_attribute", "signal_by_name", "__class__", "__dict__", "__init__",
+    # attributes the file formats know
+    "GenMsgCycleTime", "GenMsgSendType", "GenMsgDelayTime", "GenMsgStartDelayTime", "GenSigStartValue", "GenSigSendType", "GenSigCycleTime",
+    "VFrameFormat", "SystemSignalLongSymbol", "SystemMessageLongSymbol", "NmStationAddress", "NWM-Stationsadresse", "SPN", "SigType", "BusType",
+    "ProtocolType", "DBName",
+    # keywords
+    "None", "True", "def", "class", "del", "INT", "STRING", "ENUM", "BA_", "BA_DEF_", "BO_", "SG_",
+    # names of frames and signals of the pools
+    "Msg", "Status", "Ext", "sig", "speed", "x"]
+
+
+def rand_attrs_p(rng, pool, p):
+    return [[a, rng.choice(["v0", "v1", "v2", "", "0", "False", "100"])] for a in pool if rng.random() < p]
+
+
+def gen_matrix_words(rng):
+    pool = rng.sample(ATTR_WORDS, rng.randint(3, 6)) + (rng.sample(ATTRS, 2) if rng.random() < 0.4 else [])
+    frames = []
+    for fname in rng.sample(FNAMES, rng.randint(1, 4)):
+        sigs = [[sname, 0 if rng.random() < 0.15 else rng.randint(1, 16), rand_attrs_p(rng, pool, 0.4)] for sname in rng.sample(SNAMES, rng.randint(0, 4))]
+        frames.append([fname, rand_attrs_p(rng, pool, 0.45), sigs])
+    ecus = [["E%d" % k, rand_attrs_p(rng, pool, 0.4)] for k in range(rng.randint(0, 2))]
+    pick = lambda: [a for a in pool if rng.random() < 0.75]  # noqa
+    return {"frames": frames, "ecus": ecus, "fd": pick(), "ed": pick(), "sd": pick()}
+
+
+def gen_op_words(rng, m, allow_each=True):
+    an = present(m)[2]
+    k = rng.random()
+    if k < 0.72:
+        names = []
+        for _ in range(rng.randint(1, 3)):
+            r = rng.random()
+            n = rng.choice(an) if an and r < 0.75 else near(rng.choice(an), rng) if an and r < 0.8 else rng.choice(ATTR_WORDS)
+            if n not in names:
+                names.append(n)
+        each = ["each"] if allow_each and rng.random() < 0.25 else []
+        return ["delFrameAttrs" if k < 0.36 else "delSigAttrs", names] + each
+    return ["obsolete"] if k < 0.9 else gen_op(rng)
+
+
+def words_ops(rng, m, allow_each=True):
+    ops = [gen_op_words(rng, m, allow_each) for _ in range(rng.randint(1, 3))]
+    if rng.random() < 0.5:
+        ops.append(["obsolete"])   # with the attributes gone their definitions are obsolete
+    return ops
+
+
+def words_case(rng):
+    m = gen_matrix_words(rng)
+    return {"op": "bulk", "c": {"m": m, "ops": words_ops(rng, m)}}
+
+
+def sweep_words():
+    """every word as a frame, signal and ECU attribute used in only some objects, deleted by the bulk operations and through the objects"""
+    for w in ATTR_WORDS + ATTRS:
+        o = "GenB" if w != "GenB" else "GenA"
+        m = {"frames": [["F", [[w, "v0"], [o, "v1"]], [["s", 4, [[w, "v1"]]], ["t", 4, [[o, "v2"]]]]],
+                        ["G", [], [["s", 2, []], ["t", 0, []]]],
+                        ["H", [[w, "100"]], [["s", 2, [[o, ""], [w, "0"]]]]]],
+             "ecus": [["E0", [[w, "v0"]]]], "fd": [w, o], "ed": [w], "sd": [o, w]}
+        yield {"op": "bulk", "c": {"m": m, "ops": [["delFrameAttrs", [w]], ["delSigAttrs", [w]], ["obsolete"]]}}
+        yield {"op": "bulk", "c": {"m": m, "ops": [["delSigAttrs", [w], "each"], ["obsolete"], ["delFrameAttrs", [w], "each"], ["obsolete"]]}}
+        yield {"op": "bulk", "c": {"m": m, "ops": [["delFrameAttrs", [o, w]], ["delSigAttrs", ["nomatch", w, o]], ["obsolete"]]}}
+
+
 # ---- the same operations through the converter: canmatrix.convert.convert / canconvert on an input file with one or several matrices ----
 # The delete/rename options of the converter are the operations of this property applied to every matrix of the input file, in a fixed
 # order.  A case of this stream is judged like any other ("m" = one matrix of the file, "ops" = the operations the options stand for, in
@@ -376,14 +460,15 @@ def bus_variant(rng, m):
             "fd": pick(), "ed": pick(), "sd": pick()}
 
 
-def conv_cases(rng):
-    """one converter call (per prefix of the operations) on a file of 1..3 matrices; one case per matrix of the file"""
-    fmt = "kcd" if rng.random() < 0.15 else "mem"
+def conv_cases(rng, words=False):
+    """one converter call (per prefix of the operations) on a file of 1..3 matrices; one case per matrix of the file
+    (words: matrices and operations of the fifth stream; a KCD file carries no attributes, so the lossless format only)"""
+    fmt = "kcd" if rng.random() < 0.15 and not words else "mem"
     r = rng.random()
-    first = gen_matrix_family(rng) if r < 0.3 else gen_matrix_near(rng) if r < 0.45 else gen_matrix(rng)
+    first = gen_matrix_words(rng) if words else gen_matrix_family(rng) if r < 0.3 else gen_matrix_near(rng) if r < 0.45 else gen_matrix(rng)
     ms = [first]
     for _ in range(rng.choice([0, 1, 1, 1, 2])):
-        ms.append(bus_variant(rng, first) if rng.random() < 0.55 else gen_matrix(rng))
+        ms.append(bus_variant(rng, first) if rng.random() < 0.55 else gen_matrix_words(rng) if words else gen_matrix(rng))
     rng.shuffle(ms)
     if fmt == "kcd":
         ms = [kcd_matrix(m) for m in ms]
@@ -392,7 +477,10 @@ def conv_cases(rng):
     for _ in range(rng.randint(1, 3)):
         r = rng.random()
         src = rng.choice(ms)
-        new = gen_op_collide(rng, src) if r < 0.15 else [gen_op_near(rng, src, allow_obj=False)] if r < 0.4 else [gen_op(rng)]
+        if words:
+            new = words_ops(rng, src, allow_each=False)
+        else:
+            new = gen_op_collide(rng, src) if r < 0.15 else [gen_op_near(rng, src, allow_obj=False)] if r < 0.4 else [gen_op(rng)]
         for o in new:
             once = o[0] in ("zero", "obsolete", "delSigAttrs", "delFrameAttrs")
             if (fmt == "kcd" and once) or (once and any(p[0] == o[0] for p in ops)):
@@ -501,6 +589,16 @@ def gen(rng, tier, shard, nshards):
     for _ in range({"quick": 640, "thorough": 9600}[tier] // nshards):
         for c in conv_cases(rng):
             yield c
+    # attribute names that are words elsewhere (drawn after the streams above, which are unchanged)
+    for k in range({"quick": 1600, "thorough": 24000}[tier] // nshards):
+        if k % 10 == 9:
+            for c in conv_cases(rng, words=True):
+                yield c
+        else:
+            yield words_case(rng)
+    if shard == 3 % nshards:
+        for c in sweep_words():
+            yield c
 
 
 def neighbours(case, rng, shard, nshards):
@@ -510,6 +608,7 @@ def neighbours(case, rng, shard, nshards):
         ops = gen_op_collide(rng, case["c"]["m"])
         if ops:
             yield {"op": "bulk", "c": {"m": case["c"]["m"], "ops": ops}}
+        yield {"op": "bulk", "c": {"m": case["c"]["m"], "ops": words_ops(rng, case["c"]["m"])[:4]}}
 
 
 def build(m):
@@ -593,6 +692,16 @@ def observe(case):
             db.del_frame(frame_object(db, op[1]) if obj else op[1])
         elif k == "renameFrame":
             db.rename_frame(frame_object(db, op[1]) if obj else op[1], op[2])
+        elif k == "delSigAttrs" and op[-1] == "each" and len(op) > 2:
+            # the same request made of every signal itself
+            for f in db.frames:
+                for sg in f.signals:
+                    for a in op[1]:
+                        sg.del_attribute(a)
+        elif k == "delFrameAttrs" and op[-1] == "each" and len(op) > 2:
+            for f in db.frames:
+                for a in op[1]:
+                    f.del_attribute(a)
         elif k == "delSigAttrs":
             db.del_signal_attributes(op[1])
         elif k == "delFrameAttrs":
@@ -627,6 +736,14 @@ def features(case, impl):
                     if any(new_name(op[1], op[2], names[j]) != names[j] for _, j in hit):
                         yield op[0] + ":... which matches too (%s)" % ("stands later" if any(i < j and new_name(op[1], op[2], names[j]) != names[j] for i, j in hit) else "stands earlier")
                     break
+        if op[0] in ("delSigAttrs", "delFrameAttrs"):
+            used = {a[0] for f in prev["frames"] for a in f[1]} if op[0] == "delFrameAttrs" else {a[0] for f in prev["frames"] for s in f[2] for a in s[2]}
+            hit = [n for n in op[1] if n in used]
+            yield op[0] + (":names an attribute that is set" if hit else ":names no attribute that is set")
+            if any(n in ATTR_WORDS for n in hit):
+                yield op[0] + ":deletes an attribute whose name is a word elsewhere (class field, format attribute, keyword, frame name)"
+            if op[-1] == "each" and len(op) > 2:
+                yield op[0] + ":as del_attribute of every object"
         prev = st
     conv = case["c"].get("conv")
     if conv:
